@@ -699,6 +699,15 @@ fn traced_stage(
         return f(pipeline, ctx);
     }
     let input = serde_json::to_value(&pipeline).unwrap_or_default();
+    let reads: Vec<Option<Vec<usize>>> = pipeline
+        .iter()
+        .map(|t| match t {
+            SqlTransform::Super(t) => Some(CidCollector::collect_t(t.clone()).1),
+            SqlTransform::Join { filter, .. } => Some(CidCollector::collect(filter.clone())),
+            _ => None,
+        })
+        .map(|cids| cids.map(|cids| cids.iter().map(|c| c.get()).collect()))
+        .collect();
     let select_columns = ctx.anchor.determine_select_columns(&pipeline);
     let mut instances = crate::sql::verif_hooks::instances_of(&ctx.anchor, &pipeline);
     let res = f(pipeline, ctx);
@@ -712,6 +721,7 @@ fn traced_stage(
         "event": "preprocess_stage",
         "stage": stage,
         "input": input,
+        "reads": reads,
         "output": res.as_ref().ok(),
         "error": res.as_ref().err().map(|e| format!("{e:?}")),
         "select_columns": select_columns,
